@@ -35,6 +35,8 @@ def run(chk):
     batcher.time_arithmetic(chk, P, "C08")
     batcher.send_rules(chk, P, "C08")
     batcher.wait_closures(chk, P, "C08")
+    batcher.send_or_wait_outcomes(chk, P, "C08")
+    batcher.callbacks_consumed(chk, P, "C08")
     batcher.worker_panics(chk, P, "C08")
     if not getattr(chk, "_overlay", None):
         common.results_inspected_rule(
